@@ -47,10 +47,13 @@ PARTIAL = {
  "C02": ("Coq theorems: the receive window only advances over slots without undelivered data (a stored Reliable packet is never skipped by the receiver), sync frames are due whenever something is unacknowledged, the rate floor holds on expiry. End-to-end ordering w.r.t. submission order and bounded-time delivery are decided by the reliable-order and stall oracles on faulty / blackout / long loss-free streams: PARTIAL.", "DESIGN.md §5 C02"),
  "C05": ("Coq theorems: sender ids follow submission order, only stale TimeSensitive packets are dropped at the sender, payload partition. The end-to-end equality of delivered and submitted sequences on an ideal network is decided by the ideal stream with global-order and completion oracles: PARTIAL.", "DESIGN.md §5 C05"),
  "C11": ("Coq theorems on the recovery mechanisms: sync frames due, frame-window resynchronisation accepts any point within a window, rate floor on expiry, acknowledgements release window space. End-to-end recovery after blackouts is decided by the blackout/live streams with the stall oracle: PARTIAL.", "DESIGN.md §5 C11"),
- "C03": ("Coq theorems for ALL inputs: frame reader total, PacketSender::acknowledge total for any id, rate-controller step total, receiver slot indices in range; and for the HalfConnection as a whole (C03_half_connection_total): by an invariant over the frame log, transfer window, reorder buffer, send window, rate controller and loss intervals proved for ALL sequences of send/receive/step/flush/frame operations, EVERY such operation from EVERY reachable state returns normally — no panic site is reached and every loop (incl. the four emit loops of flush, by a potential argument) ends within its fuel. The Client/Server composition around it (event heap, address table) is NOT proved; it is decided on debug AND release builds (hang watchdog) by hostile/pair/tx/rate/lifecycle streams, and every modelled panic site and loop bound is explicit in the model the code is compared with: PARTIAL.", "DESIGN.md §5 C03"),
+ "C03": ("Coq theorems for ALL inputs and histories: every panic site and every loop contained in the model is unreachable / bounded — the frame reader on any byte string; the HalfConnection (C03_half_connection_total: by an invariant over frame log, transfer window, reorder buffer, send window, rate controller and loss intervals, every send/receive/step/flush/frame operation from every reachable state returns normally, flush terminating by a potential argument); the Client (C03_client_total) and the Server (C03_server_total, timer loop bounded by counting due entries through the binary heap) for every history of steps with any byte datagrams from any addresses, any clock values and nonces, and any application calls. Outside the model (decided by the streams, debug AND release builds with hang watchdog): debug-build overflow checks where the model computes in unbounded integers, allocation failure, socket calls, and the model/code agreement itself.", "DESIGN.md §5 C03"),
 }
 for k, (text, ref) in PARTIAL.items():
-    CLAIMED[k] = dict(text=text, note=TRUST, technique="Coq proof of the component theorems + model/implementation differential run + property oracle on the implementation (partial)", design=ref)
+    tech = "Coq proof of the component theorems + model/implementation differential run + property oracle on the implementation (partial)"
+    if k == "C03":
+        tech = "Coq proof (reachable-state invariants by induction over operation lists for HalfConnection, Client and Server; loop termination by potential / counting arguments) + model/implementation differential run in debug and release builds"
+    CLAIMED[k] = dict(text=text, note=TRUST, technique=tech, design=ref)
 
 EP = {
  "C17": ("Coq invariant by induction over ALL server operation sequences (steps with any datagrams from any addresses and any clock, flush, drop, send, disconnect): tracked addresses <= max_total_connections and the active list (every established connection) <= max_active_connections; a SYN is refused with ServerFull exactly when a limit is reached; promotion only while there is room. Tied by limits/lifecycle/forge streams over real UDP sockets with the virtual clock.", "DESIGN.md §5 C17"),
